@@ -137,6 +137,44 @@ def cache_protocol():
 CHECKS = {}     # class -> (order of assignment and zero check, strict comparison?, threshold); filled by b_machine()
 
 
+def t1d_order():
+    """Order of the top-level statements of `BaseTransform.transform_1d_grid` relative to the calls that can fix the
+    remembered scale: each statement is tagged `raise:<exceptions>` (an `if ...: raise` guard, or anything containing a
+    `raise`), `call:<methods>` (contains a call of a method of `self`, which may fix state), `call+raise:...` (both) or
+    `plain`.  No other class may define `transform_1d_grid` (the three b-scaled classes inherit this one)."""
+    tree = ast.parse((SRC / "rtransform.py").read_text())
+    owners = [c.name for c in tree.body if isinstance(c, ast.ClassDef)
+              for m in c.body if isinstance(m, ast.FunctionDef) and m.name == "transform_1d_grid"]
+    if owners != ["BaseTransform"]:
+        raise Unsupported(f"rtransform: transform_1d_grid defined in {owners}, expected only in BaseTransform")
+    base = next(c for c in tree.body if isinstance(c, ast.ClassDef) and c.name == "BaseTransform")
+    fn = next(m for m in base.body if isinstance(m, ast.FunctionDef) and m.name == "transform_1d_grid")
+    body = [st for st in fn.body if not (isinstance(st, ast.Expr) and isinstance(st.value, ast.Constant))]
+    props = {m.name for c in tree.body if isinstance(c, ast.ClassDef) for m in c.body
+             if isinstance(m, ast.FunctionDef) and any(ast.unparse(d) == "property" for d in m.decorator_list)}
+    tags = []
+    for st in body:
+        if isinstance(st, (ast.For, ast.While, ast.Try, ast.With)):
+            raise Unsupported(f"rtransform.BaseTransform.transform_1d_grid: statement not carried: {ast.unparse(st)[:80]}")
+        raises = sorted({ast.unparse(n.exc.func) if isinstance(n.exc, ast.Call) else ast.unparse(n.exc) if n.exc else "reraise"
+                         for n in ast.walk(st) if isinstance(n, ast.Raise)})
+        calls = sorted({n.func.attr for n in ast.walk(st) if isinstance(n, ast.Call) and isinstance(n.func, ast.Attribute)
+                        and isinstance(n.func.value, ast.Name) and n.func.value.id == "self"})
+        # attribute reads of `self` that are not properties could be anything: refuse
+        for n in ast.walk(st):
+            if isinstance(n, ast.Attribute) and isinstance(n.value, ast.Name) and n.value.id == "self" and isinstance(n.ctx, ast.Store):
+                raise Unsupported("rtransform.BaseTransform.transform_1d_grid: assigns an attribute of self")
+        if raises and calls:
+            tags.append("call+raise:" + "/".join(calls) + ":" + "/".join(raises))
+        elif raises:
+            tags.append("raise:" + "/".join(raises))
+        elif calls:
+            tags.append("call:" + "/".join(calls))
+        else:
+            tags.append("return" if isinstance(st, ast.Return) and not calls else "plain")
+    return tags
+
+
 def b_machine():
     """-> per class: ('guarded'|'always', [methods calling set_maximum_parameter_b first], other writers of _b)"""
     tree = ast.parse((SRC / "rtransform.py").read_text())
@@ -280,6 +318,10 @@ def generate():
         parts.append(f"def bWriters_{cls} : List String := [" + ", ".join(f'"{m}"' for m in writers) + "]")
         parts.append(f"/-- methods of `{cls}` that read the scale without fixing it first -/")
         parts.append(f"def bReadersWithoutSet_{cls} : List String := [" + ", ".join(f'"{m}"' for m in nocall) + "]\n")
+    parts.append("/-- top-level statements of `BaseTransform.transform_1d_grid` in order: `raise:` guards, `call:` of methods of the object "
+                 "(which may fix the remembered scale), `call+raise:`, `plain`, `return`; each as (calls a method, contains a raise, description) -/")
+    parts.append("def t1dStatements : List StmtTag := [" + ", ".join(
+        f'({tb(t.startswith("call"))}, {tb(t.startswith("raise") or t.startswith("call+raise"))}, "{t}")' for t in t1d_order()) + "]\n")
     parts.append("def bClasses : List String := [" + ", ".join(f'"{c}"' for c in bm) + "]\n")
     parts.append("/-- `load_atomic_gaussian_params` builds its two result arrays anew from the JSON lists on every call. -/")
     parts.append(f"def coulombLoaderFresh : Bool := {tb(cf)}\n")
